@@ -1,10 +1,13 @@
 // C11 correspondence harness: pkg/bootflow/types/data.go (reference algebra) and
-// fiano pkg/bytes/range.go against Model/Ranges.v + Model/Refs.v.
+// fiano pkg/bytes/range.go against Model/Ranges.v + Model/Refs.v (values) and
+// Model/RefsHeap.v (slices in backing arrays).
 //
 // Files: main.go (artifact pool, Gallina printers, drivers of the real code),
-// gen.go (case generators), oracle.go (independent oracle: set algebra on
-// explicit offset sets per (artifact identity, mapper identity), written from the
-// property text).
+// gen.go (case generators for single calls), oracle.go (independent oracle: set
+// algebra on explicit offset sets per (artifact identity, mapper identity),
+// written from the property text), prog.go (programs: harness-made memory,
+// sequences of operations with every result kept, the whole memory projected
+// and deep-copied after every operation; the oracle's frame rules).
 package main
 
 import (
